@@ -34,6 +34,12 @@ def pdfInside (d : Params α) (y : α) : α :=
   if d.convex then (n d.c / (n 2 * (d.b - d.a))) * Num.pow ((y - d.a) / (d.b - d.a)) (n d.c / n 2 - n 1)
   else (n d.c / (n 2 * (d.b - d.a))) * Num.pow ((d.b - y) / (d.b - d.a)) (n d.c / n 2 - n 1)
 
+/-- `pdf`: `inf` at the atom of a point mass (written `1/0`, which is `inf` in `Float`), `0` outside the
+support (`np.where((ys < a) | (ys > b), 0., ps)`), the power law inside -/
+def pdf (d : Params α) (y : α) : α :=
+  if Num.eq d.a d.b then (if Num.eq y d.a then n 1 / n 0 else n 0)
+  else if y < d.a then n 0 else if d.b < y then n 0 else pdfInside d y
+
 def level (minimize : Bool) (q nn : α) : α :=
   if minimize then n 1 - Num.pow (n 1 - q) (n 1 / nn) else Num.pow q (n 1 / nn)
 
